@@ -137,6 +137,8 @@ claims = {
             "Faults are those of the ReplicaClient interface; the cached position is assumed not ahead of the database (see C04).", "DESIGN.md 5 (C05)"),
     "C20": ("Rely/guarantee step for the real s3.Leaser (AcquireLease, RenewLease, ReleaseLease, readLease, writeLease, isPreconditionFailed, isNotFoundError) and Lease.IsExpired: from every store state consistent with 'an unexpired lease is the stored record' and with the store havocked under that same condition before each of the client's requests while time advances, each operation preserves the witness client's lease while it is unexpired, issues only conditional writes, and on success leaves its own lease as the stored record with the right owner, expiry and generation; a takeover happens only after expiry and increases the generation by one; with a foreign ETag renew and release return ErrLeaseNotHeld and leave the store unchanged. Any number of other clients is covered by the havoc; mutual exclusion of two unexpired holders follows and is asserted.",
             "S3 semantics, a single clock and distinct owners are assumptions.", "DESIGN.md 5 (C20), Appendix D.5"),
+    "C17": ("The real writeLTXFromWAL is executed for all 8 page sizes with the previous and new commit sizes each ranging over lock-3..lock+3 and every subset of the four pages next to the lock page present in the WAL: no error, pages ascending and once, the lock page never encoded, a page encoded iff it is in the WAL or in the growth range. The real writeLTXFromDB runs its loop over a sparse database ending at lock-2..lock+2 (page sizes 65536 and 32768 quick; down to 4096 thorough): no error and every page except the lock page is encoded in order. In both, the real ltx.Encoder validates each page.",
+            "Page images are zeros; SQLite never writes the lock page.", "DESIGN.md 5 (C17)"),
 }
 na_reasons = {
     "C12": "quantifies over goroutine interleavings and the Go memory model; a sequential SSA symbolic interpreter cannot soundly decide races or deadlocks and no concurrency-aware engine for Go exists in this image (DESIGN.md 6)",
@@ -244,6 +246,25 @@ props["C20"] = {
     ],
     "stubs": ["S3API mock (conditional requests over one object)", "encoding/json model for Lease", "clock model with explicit steps", "log/slog no-op"],
     "outside": ["S3's actual conditional-write behaviour", "clock skew between instances", "lost responses / transport faults (the property quantifies over interleavings of requests)", "the generation restarting at 1 after an explicit release (by design; the repository's own test expects it)"],
+}
+
+props["C17"] = {
+    "level": "model_checking", "validate": 3,
+    "runs": [
+        run("root", "VxC17Incremental", {}, {}),
+        run("root", "VxC17Snapshot", {"PSI": 7}, {"PSI": 7}, note="65536-byte pages: 16385 loop iterations"),
+        run("root", "VxC17Snapshot", {"PSI": 6, "_maxsteps": 40000000}, {"PSI": 6, "_maxsteps": 40000000}, note="32768-byte pages"),
+        run("root", "VxC17Snapshot", None, {"PSI": 5, "_maxsteps": 80000000}, tier="thorough", note="16384-byte pages"),
+        run("root", "VxC17Snapshot", None, {"PSI": 4, "_maxsteps": 160000000}, tier="thorough", note="8192-byte pages"),
+        run("root", "VxC17Snapshot", None, {"PSI": 3, "_maxsteps": 320000000}, tier="thorough", note="4096-byte pages"),
+    ],
+    "assumptions": [
+        "the WAL never holds a frame for the lock page itself, and every page it holds lies within the committed size (SQLite's behaviour)",
+        "the database file is sparse zeros; page images are irrelevant to which pages are encoded",
+        "codec model as in C06; the encoder's own validation (lock page refused, snapshot pages sequential with the lock page skipped, non-snapshot pages ascending) is the real code",
+    ],
+    "stubs": ["file-system model with sparse files", "page sink recording the encoder's page headers", "log/slog no-op"],
+    "outside": ["snapshot loop for page sizes 512-2048 (2M-524k iterations each; same code, only longer)", "compaction and restore of such databases (ltx.Compactor / DecodeDatabaseTo skip the lock page by the same comparison)", "VFS reads across the lock page"],
 }
 
 rewrites = [
